@@ -136,13 +136,15 @@ PROPS = {
     },
     "C10": {
         "module": "HctlProofs.Props.C10",
-        "theorems": ["Hctl.C10.sat_subst", "Hctl.C10.sat_subst_two", "Hctl.C10.raw_result_as_wild", "Hctl.C10.ext_empty_ctx"],
+        "theorems": ["Hctl.C10.sat_subst", "Hctl.C10.sat_subst_two", "Hctl.C10.raw_result_as_wild", "Hctl.C10.ext_empty_ctx",
+                     "Hctl.C10.sat_subst_on", "Hctl.C10.sat_ctx_congr", "Hctl.C10.substitute_raw_result", "Hctl.extendedDirty_correct"],
         "ks": ["o10"],
-        "spec_tied": ["o10:pure_"],
-        "full": False,
-        "not_proved": "the evaluator-level corollary (results equal as sets) is obtained from sat_subst + evalPure_correct on the "
-                      "universe of points; the step 'all points visited by the semantics of f from a point of the universe stay in "
-                      "the universe' is not spelled out in Lean; benchmark-size leg is testing",
+        "spec_tied": ["o10:eval "],
+        "full": True,
+        "not_proved": "nothing of the statement on the model: substitute_raw_result is the set-level statement (every graph, every "
+                      "formula, any position of the closed sub-formula, fresh wild-card bound to its raw result), and by "
+                      "extendedDirty_correct the cached entry points return exactly these sets; the benchmark-size leg of the "
+                      "oracle is testing of the implementation",
         "rule": "O10: random (plain and extended) formulae, 1-3 closed sub-formulae replaced by wild-cards bound to their raw results; "
                 "plain formulae through the extended entry point with empty context; thorough: bundled 13/17-variable models",
         "assumptions": EVAL_ASSUME,
